@@ -522,7 +522,12 @@ partial def loop (inp : IO.FS.Stream) (out : IO.FS.Stream) (s : St) : IO Unit :=
     let (s', resp) := step s line
     out.putStrLn resp
     out.flush
-    loop inp out { s' with p := pcheckVal (pmirror s'.enc s'.layer s'.cfg.bf s'.p toks) toks resp }
+    let p' := pcheckVal (pmirror s'.enc s'.layer s'.cfg.bf s'.p toks) toks resp
+    -- a Forward / Backward that failed at the object level left the cursor where it was
+    -- (C10_object_level_failed_move_stays): the functional cursor, which knows no faults, is put back
+    let s' := if p'.on && p'.last == "err" && (toks.head? == some "cfwd" || toks.head? == some "cbwd")
+      then { s' with cursors := s.cursors } else s'
+    loop inp out { s' with p := p' }
 
 def main : IO Unit := do
   loop (← IO.getStdin) (← IO.getStdout) {}
